@@ -40,6 +40,8 @@ type Run struct {
 	initNextObj int
 	wallLimit   time.Duration
 	thorough    bool
+	shard       int
+	shards      int
 	deadline    time.Time
 
 	// concrete mode
